@@ -144,7 +144,9 @@ class G:
             t = t + r.choice([".192.168.1.10", "_10.0.0.7:27017", "10.1.2.3"])
         if self.exotic and r.chance(1, 5):
             # keys that need escaping when printed: control characters, quote, backslash, HTML, non-ASCII, U+2028
-            t = t + r.choice(["\n", "\t", "\u0001", "\"", "\\", "\\u0041", "<&>", "é", "\u2028", "\U0001F600", " ", "\r", "\u007f", "/", "\x1f", "\x1e", "\\u003c", "\\u0026x"])
+            t = t + r.choice(["\n", "\t", "\u0001", "\"", "\\", "\\u0041", "<&>", "é", "\u2028", "\U0001F600", " ", "\r", "\u007f", "/", "\x1f", "\x1e", "\\u003c", "\\u0026x",
+                              # '%' in a key: text that reaches the output unredacted may not be read as a format
+                              "%", " %d", "%s", "100%", "%!(x)", "%%", "%v%v"])
         self.fields.append(t)
         return t
 
@@ -643,7 +645,7 @@ class G:
 
 
 KEPT_TEXTS = ["peer 10.20.30.40:27017 and 192.168.0.1", "ends with a backslash\\", "C:\\Users\\bob\\", "app\x1fname", "a\x1e", "\x7f", "mongosh 2.1 <&> \u2028", "pre\\u003cescaped\\u003e \\u0026", "\\\\u003c", "tab\there", "q\"uote", "back\\slash", "nul\x00", "é中\U0001F600",
-              "plain", "<b>", "a&b", "\\u0041", "\\n", "\\", "\\\\", "/slash\\/", "\x1f", "x\x1fy\x1fz", "\ud7ff\ue000", "\ufffd", "\x01\x02\x03"]
+              "plain", "<b>", "a&b", "discount 100% off", "%s %d %v", "%", "100%!", "\\u0041", "\\n", "\\", "\\\\", "/slash\\/", "\x1f", "x\x1fy\x1fz", "\ud7ff\ue000", "\ufffd", "\x01\x02\x03"]
 
 
 def kept_text(r):
